@@ -420,3 +420,123 @@ Proof.
   intros tstep ts V NE. unfold impl_synth_edges. rewrite (tmpseconds_valid _ V).
   destruct ts; [congruence|reflexivity].
 Qed.
+
+(* ------------------------------------------------------------ extension round: more inverse mappings *)
+Lemma date2num_fixed_roundtrip : forall leap u r vals out,
+  match u with UYears => False | _ => True end ->
+  impl_cf_fixed leap u r vals = Some out -> impl_date2num_fixed leap u r out = Some vals.
+Proof.
+  intros leap u r vals out Hu H. unfold impl_cf_fixed in H. unfold impl_date2num_fixed.
+  assert (K : fx_unit_us64 leap u = unit_us64 u) by (destruct u; try reflexivity; destruct Hu).
+  rewrite K in H.
+  destruct (impl_parse r) as [p|]; [|discriminate].
+  destruct (unit_us64 u) as [k|] eqn:Ku; [|discriminate].
+  pose proof (unit_us64_pos _ _ Ku) as Kp.
+  destruct p as [[[[[[y0 m0] d0] hh] mi] ss] tz].
+  destruct (valid_md leap m0 d0); [|discriminate].
+  set (r0 := fixed_ref_us leap (y0, m0, d0, hh, mi, ss, tz)) in *.
+  refine (all_some_map_sound
+            (fun n => if row_ok (fixed_fields leap (r0 + n * k)) then Some (fixed_fields leap (r0 + n * k)) else None)
+            _ _ vals out H).
+  intros n l Hl. destruct (row_ok (fixed_fields leap (r0 + n * k))); [|discriminate]. injection Hl as <-.
+  rewrite fixed_us_of_fixed_fields.
+  replace (r0 + n * k - r0) with (n * k) by lia.
+  rewrite Z.mod_mul, Z.div_mul by lia. reflexivity.
+Qed.
+
+(* time2idx(getTimes()) = 0..n-1 through date2num, for an ascending time variable *)
+Lemma time2idx_of_getTimes : forall u r vals out,
+  impl_cf_std u r vals = Some out -> strictly_asc vals = true ->
+  exists nums, impl_date2num u r out = Some nums
+               /\ impl_time2idx vals nums = Some (iota 0 (length vals)).
+Proof.
+  intros u r vals out H A. exists vals. split; [exact (date2num_roundtrip _ _ _ _ H)|exact (time2idx_identity _ A)].
+Qed.
+
+(* updatetflag followed by getTimes: the rows written for whole-second instants decode to those instants *)
+Lemma flag_year_in_range : forall s, in_range (s * us_sec) = true ->
+  let '(y, _) := yj_of_days (s / 86400) in 1 <= y <= 9999.
+Proof.
+  intros s R. unfold in_range, us_day, us_sec in R. apply andb_true_iff in R as [R1 R2].
+  apply Z.leb_le in R1. apply Z.ltb_lt in R2.
+  pose proof (yj_of_days_spec (s / 86400)) as H. destruct (yj_of_days (s / 86400)) as [y j].
+  destruct H as [[H1 H2] _].
+  assert (D1 : jan1 1 <= s / 86400) by lia. assert (D2 : s / 86400 < jan1 10000) by lia.
+  split.
+  - destruct (Z_lt_le_dec y 1) as [L|L]; [|exact L].
+    assert (Q : jan1 (y + 1) <= jan1 1).
+    { destruct (Z.eq_dec (y + 1) 1) as [->|N]; [lia|]. pose proof (jan1_mono y 0 ltac:(lia)).
+      change (jan1 (0 + 1)) with (jan1 1) in *.
+      pose proof (jan1_mono y (y + 1) ltac:(lia)).
+      assert (jan1 (y + 1) <= jan1 0 \/ True) by tauto.
+      pose proof (jan1_mono (y + 1 - 1) 1 ltac:(lia)) as M. replace (y + 1 - 1 + 1) with (y + 1) in M by lia. exact M. }
+    lia.
+  - destruct (Z_le_gt_dec y 9999) as [L|L]; [exact L|].
+    assert (Q : jan1 10000 <= jan1 y).
+    { destruct (Z.eq_dec y 10000) as [->|N]; [lia|].
+      pose proof (jan1_mono 9999 y ltac:(lia)) as M. exact M. }
+    lia.
+Qed.
+
+Lemma flag_us_of_flag_of_sec : forall s, in_range (s * us_sec) = true ->
+  impl_flag_us (fst (flag_of_sec s)) (snd (flag_of_sec s)) = Some (s * us_sec).
+Proof.
+  intros s R. pose proof (flag_year_in_range s R) as Y.
+  pose proof (sec_of_flag_of_sec s) as F. pose proof (yj_of_days_valid (s / 86400)) as V.
+  unfold flag_of_sec in *. destruct (yj_of_days (s / 86400)) as [y j].
+  cbn [fst snd] in *. destruct F as [F1 F2].
+  assert (VF : valid_flag (yyyyjjj y j, hhmmss_of_sec (s mod 86400)) = true).
+  { unfold valid_flag. cbn [fst snd].
+    assert (Hj : 0 <= j < 1000).
+    { unfold valid_yj in V. apply andb_true_iff in V as [A C]. apply Z.leb_le in A, C.
+      pose proof (year_len_pos y). lia. }
+    rewrite yj_of_yyyyjjj_of by exact Hj. rewrite V, F2.
+    assert (E : ((1 <=? y) && (y <=? 9999)) = true) by (apply andb_true_iff; split; apply Z.leb_le; lia).
+    rewrite E. reflexivity. }
+  pose proof (flag_us_valid _ VF) as Q. unfold spec_flag_us in Q. cbn [fst snd] in Q. rewrite Q, F1. reflexivity.
+Qed.
+
+Lemma updatetflag_then_decode : forall secs tstep,
+  forallb (fun s => in_range (s * us_sec)) secs = true ->
+  impl_tflag (map flag_of_sec secs) tstep false = decode_all (map (fun s => s * us_sec) secs).
+Proof.
+  intros secs tstep R. unfold impl_tflag. rewrite map_map.
+  rewrite (all_some_map_ext _ (fun s => s * us_sec)); [reflexivity|].
+  intros s Hs. apply flag_us_of_flag_of_sec. rewrite forallb_forall in R. apply R. exact Hs.
+Qed.
+
+
+(* approximate bounds (no time_bounds variable): for an evenly spaced series the edges are the midpoints *)
+Lemma length_iota : forall n i, length (iota i n) = n.
+Proof. induction n as [|n IH]; intros i; simpl; [reflexivity|f_equal; apply IH]. Qed.
+
+Lemma last_map_iota : forall (f : Z -> Z) m i, last (map f (iota i (S m))) 0 = f (i + Z.of_nat m).
+Proof.
+  induction m as [|m IH]; intros i.
+  - simpl. f_equal. lia.
+  - change (iota i (S (S m))) with (i :: iota (i + 1) (S m)). cbn [map].
+    change (last (f i :: map f (iota (i + 1) (S m))) 0) with
+      (match map f (iota (i + 1) (S m)) with [] => f i | _ :: _ => last (map f (iota (i + 1) (S m))) 0 end).
+    rewrite IH. cbn [iota map]. f_equal. lia.
+Qed.
+
+Lemma bounds_mid_uniform : forall x0 s m,
+  let n := S (S m) in
+  impl_bounds_vals BMid (map (fun i => x0 + i * s) (iota 0 n))
+  = Some (map (fun i => x0 + i * s - s / 2) (iota 0 n) ++ [x0 + (Z.of_nat n - 1) * s + s / 2]).
+Proof.
+  intros x0 s m n. unfold impl_bounds_vals.
+  assert (Hd : hd 0 (map (fun i => x0 + i * s) (iota 0 n)) = x0) by (simpl; lia).
+  assert (Hl : lastZ (map (fun i => x0 + i * s) (iota 0 n)) = x0 + (Z.of_nat n - 1) * s).
+  { unfold lastZ, n. rewrite last_map_iota. f_equal. f_equal. lia. }
+  assert (Hn : Z.of_nat (length (map (fun i => x0 + i * s) (iota 0 n))) = Z.of_nat n)
+    by (rewrite map_length, length_iota; reflexivity).
+  assert (Dt : (lastZ (map (fun i => x0 + i * s) (iota 0 n)) - hd 0 (map (fun i => x0 + i * s) (iota 0 n)))
+               / (Z.of_nat (length (map (fun i => x0 + i * s) (iota 0 n))) - 1) = s).
+  { rewrite Hd, Hl, Hn. replace (x0 + (Z.of_nat n - 1) * s - x0) with (s * (Z.of_nat n - 1)) by lia.
+    apply Z.div_mul. unfold n. lia. }
+  change (iota 0 n) with (0 :: (0 + 1) :: iota (0 + 1 + 1) m) at 1. cbn [map].
+  change ((x0 + 0 * s) :: (x0 + (0 + 1) * s) :: map (fun i => x0 + i * s) (iota (0 + 1 + 1) m))
+    with (map (fun i => x0 + i * s) (iota 0 n)).
+  rewrite Dt, Hl, map_map. reflexivity.
+Qed.
